@@ -372,6 +372,10 @@ pub mod atomic {
                     rt::point(Op::Atomic);
                     self.inner.fetch_or(v, o)
                 }
+                pub fn fetch_nand(&self, v: $t, o: Ordering) -> $t {
+                    rt::point(Op::Atomic);
+                    self.inner.fetch_nand(v, o)
+                }
                 pub fn fetch_xor(&self, v: $t, o: Ordering) -> $t {
                     rt::point(Op::Atomic);
                     self.inner.fetch_xor(v, o)
@@ -445,6 +449,11 @@ pub mod atomic {
             fmt::Debug::fmt(&self.inner, f)
         }
     }
+    impl From<bool> for AtomicBool {
+        fn from(v: bool) -> Self {
+            Self::new(v)
+        }
+    }
     impl AtomicBool {
         pub const fn new(v: bool) -> Self {
             Self { inner: std::sync::atomic::AtomicBool::new(v) }
@@ -468,6 +477,27 @@ pub mod atomic {
         pub fn fetch_and(&self, v: bool, o: Ordering) -> bool {
             rt::point(Op::Atomic);
             self.inner.fetch_and(v, o)
+        }
+        pub fn fetch_xor(&self, v: bool, o: Ordering) -> bool {
+            rt::point(Op::Atomic);
+            self.inner.fetch_xor(v, o)
+        }
+        pub fn fetch_nand(&self, v: bool, o: Ordering) -> bool {
+            rt::point(Op::Atomic);
+            self.inner.fetch_nand(v, o)
+        }
+        pub fn fetch_update<F>(&self, s: Ordering, f: Ordering, func: F) -> Result<bool, bool>
+        where
+            F: FnMut(bool) -> Option<bool>,
+        {
+            rt::point(Op::Atomic);
+            self.inner.fetch_update(s, f, func)
+        }
+        pub fn get_mut(&mut self) -> &mut bool {
+            self.inner.get_mut()
+        }
+        pub fn into_inner(self) -> bool {
+            self.inner.into_inner()
         }
         pub fn compare_exchange(
             &self,
